@@ -20,6 +20,7 @@ def dispatch (prop k : String) (i impl : Json) : E Json :=
   | "trust" => handleTrust i
   | "envstate" => handleEnvState i
   | "sign" => handleSign prop i impl
+  | "localsigner" => handleLocalSigner i impl
   | "fetch" => handleFetch i impl
   | "conc" => handleConc i impl
   | "jwsread" => handleJwsRead prop i impl
